@@ -1,6 +1,7 @@
 // factgen policy: regenerates lean/Galaxy/Generated/Policy.lean from /repo/pkg/policy/{policy,event}.go
 //
-// Purely syntactic (go/ast).  Emits, as Lean defs, everything model M7 (Galaxy.Policy) and the properties
+// Purely syntactic (go/ast), on the CANONICAL form of every function (norm.go: harmless/NORMALISE.md), so that
+// behaviour-preserving rewrites of the source do not change what is emitted.  Emits, as Lean defs, everything model M7 (Galaxy.Policy) and the properties
 // C16 / C15 use as a literal or as a structural fact:
 //   - name prefixes (GLX, GLX-PLCY, GLX-POD, GLX-INGRESS, GLX-EGRESS), set / chain name formats, hash pipeline
 //     and truncation of nameHash / tableNameHash;
@@ -18,6 +19,7 @@ import (
 	"fmt"
 	"go/ast"
 	"go/token"
+	"sort"
 	"strconv"
 	"strings"
 
@@ -31,8 +33,23 @@ const (
 
 type gen struct {
 	p, ev *fg.Parsed
+	nz    *Normaliser
+	nfs   map[string]*NF
 	vars  map[string]string
 	out   strings.Builder
+}
+
+// fn: canonical form of a function of the package (cached).
+func (g *gen) fn(name string) (*NF, error) {
+	if nf, ok := g.nfs[name]; ok {
+		return nf, nil
+	}
+	nf, err := g.nz.NormaliseByName(name)
+	if err != nil {
+		return nil, fmt.Errorf("%s: %v", name, err)
+	}
+	g.nfs[name] = nf
+	return nf, nil
 }
 
 func (g *gen) emit(format string, a ...interface{}) { fmt.Fprintf(&g.out, format+"\n", a...) }
@@ -72,11 +89,11 @@ func (g *gen) evalStr(e ast.Expr) (string, error) {
 			return a + b, nil
 		}
 	case *ast.CallExpr: // type conversion utiliptables.Chain(...)
-		if len(x.Args) == 1 && strings.HasSuffix(g.p.Src(x.Fun), "Chain") {
+		if len(x.Args) == 1 && (strings.HasSuffix(txt(x.Fun), "Chain") || txt(x.Fun) == "string") {
 			return g.evalStr(x.Args[0])
 		}
 	}
-	return "", fmt.Errorf("%s: cannot evaluate string expression %s", srcPolicy, g.p.Src(e))
+	return "", fmt.Errorf("%s: cannot evaluate string expression %s", srcPolicy, txt(e))
 }
 
 func (g *gen) loadVars() error {
@@ -108,8 +125,32 @@ func (g *gen) loadVars() error {
 
 // ---- token templates
 
-// tokOf renders one word of a rule template: Tok.lit "x" | Tok.var "src text" | Tok.join "src" "sep" | Tok.splice "v"
-func (g *gen) tokOf(e ast.Expr) (string, error) {
+// stripConv removes string(…) / …Chain(…) conversions around an expression.
+func stripConv(e ast.Expr) ast.Expr {
+	for {
+		e = stripParens(e)
+		c, ok := e.(*ast.CallExpr)
+		if !ok || len(c.Args) != 1 || c.Ellipsis != token.NoPos {
+			return e
+		}
+		if f := txt(c.Fun); f == "string" || strings.HasSuffix(f, ".Chain") {
+			e = c.Args[0]
+			continue
+		}
+		return e
+	}
+}
+
+// tokOf renders one word of a rule template: Tok.lit "x" | Tok.var "canonical Go expression" | Tok.join "src" "sep".
+// ren maps canonical texts to the names used in the generated file (chunk bounds).
+func (g *gen) tokOf(e ast.Expr, ren map[string]string) (string, error) {
+	r := func(s string) string {
+		if t, ok := ren[s]; ok {
+			return t
+		}
+		return s
+	}
+	e = stripConv(e)
 	switch x := e.(type) {
 	case *ast.BasicLit:
 		if x.Kind == token.STRING {
@@ -120,36 +161,29 @@ func (g *gen) tokOf(e ast.Expr) (string, error) {
 			return "Tok.lit " + fg.LeanStr(s), nil
 		}
 	case *ast.Ident:
-		return "Tok.var " + fg.LeanStr(x.Name), nil
+		if v, ok := g.vars[x.Name]; ok {
+			return "Tok.lit " + fg.LeanStr(v), nil
+		}
+		return "Tok.var " + fg.LeanStr(r(x.Name)), nil
 	case *ast.SelectorExpr:
-		return "Tok.var " + fg.LeanStr(g.p.Src(x)), nil
+		return "Tok.var " + fg.LeanStr(r(txt(x))), nil
 	case *ast.CallExpr:
-		fn := g.p.Src(x.Fun)
-		if fn == "string" && len(x.Args) == 1 {
-			if id, ok := x.Args[0].(*ast.Ident); ok {
-				if v, ok := g.vars[id.Name]; ok {
-					return "Tok.lit " + fg.LeanStr(v), nil
-				}
-				return "Tok.var " + fg.LeanStr(id.Name), nil
+		if txt(x.Fun) == "strings.Join" && len(x.Args) == 2 {
+			if sep, ok := strLit(x.Args[1]); ok {
+				return "Tok.join " + fg.LeanStr(r(txt(x.Args[0]))) + " " + fg.LeanStr(sep), nil
 			}
 		}
-		if fn == "strings.Join" && len(x.Args) == 2 {
-			if sep, ok := x.Args[1].(*ast.BasicLit); ok && sep.Kind == token.STRING {
-				s, _ := strconv.Unquote(sep.Value)
-				return "Tok.join " + fg.LeanStr(g.p.Src(x.Args[0])) + " " + fg.LeanStr(s), nil
-			}
-		}
-		if fn == "policyChainName" && len(x.Args) == 1 {
-			return "Tok.var " + fg.LeanStr("policyChainName"), nil
+		if g.nz.pureExpr(x) {
+			return "Tok.var " + fg.LeanStr(r(txt(x))), nil
 		}
 	}
-	return "", fmt.Errorf("%s: cannot translate template word %s", srcPolicy, g.p.Src(e))
+	return "", fmt.Errorf("%s: cannot translate template word %s", srcPolicy, txt(e))
 }
 
-func (g *gen) toksOf(es []ast.Expr) ([]string, error) {
+func (g *gen) toksOf(es []ast.Expr, ren map[string]string) ([]string, error) {
 	var out []string
 	for _, e := range es {
-		t, err := g.tokOf(e)
+		t, err := g.tokOf(e, ren)
 		if err != nil {
 			return nil, err
 		}
@@ -162,7 +196,7 @@ func leanToks(ts []string) string { return "[" + strings.Join(ts, ", ") + "]" }
 
 // stringSliceLit returns the elements of a `[]string{...}` composite literal.
 func stringSliceLit(e ast.Expr) ([]ast.Expr, bool) {
-	cl, ok := e.(*ast.CompositeLit)
+	cl, ok := stripParens(e).(*ast.CompositeLit)
 	if !ok {
 		return nil, false
 	}
@@ -176,150 +210,232 @@ func stringSliceLit(e ast.Expr) ([]ast.Expr, bool) {
 	return cl.Elts, true
 }
 
-// argsBlock translates a block of the shape
-//
-//	args := []string{...}; args = append(args, ...)*; writeLine(filterRules, args...)
-func (g *gen) argsBlock(b *ast.BlockStmt) ([]string, error) {
-	var toks []string
-	seenWrite := false
-	for _, st := range b.List {
-		switch s := st.(type) {
-		case *ast.AssignStmt:
-			if len(s.Lhs) != 1 || g.p.Src(s.Lhs[0]) != "args" || len(s.Rhs) != 1 {
-				return nil, fmt.Errorf("writePolicyChainRules: unexpected statement %s", g.p.Src(s))
-			}
-			if els, ok := stringSliceLit(s.Rhs[0]); ok && s.Tok == token.DEFINE {
-				t, err := g.toksOf(els)
-				if err != nil {
-					return nil, err
-				}
-				toks = append(toks, t...)
-				continue
-			}
-			call, ok := s.Rhs[0].(*ast.CallExpr)
-			if !ok || g.p.Src(call.Fun) != "append" || len(call.Args) < 2 || g.p.Src(call.Args[0]) != "args" {
-				return nil, fmt.Errorf("writePolicyChainRules: unexpected statement %s", g.p.Src(s))
-			}
-			if call.Ellipsis != token.NoPos {
-				if len(call.Args) != 2 {
-					return nil, fmt.Errorf("writePolicyChainRules: unexpected append %s", g.p.Src(s))
-				}
-				toks = append(toks, "Tok.splice "+fg.LeanStr(g.p.Src(call.Args[1])))
-				continue
-			}
-			t, err := g.toksOf(call.Args[1:])
-			if err != nil {
-				return nil, err
-			}
-			toks = append(toks, t...)
-		case *ast.ExprStmt:
-			if g.p.Src(s.X) != "writeLine(filterRules, args...)" {
-				return nil, fmt.Errorf("writePolicyChainRules: unexpected statement %s", g.p.Src(s))
-			}
-			seenWrite = true
-		default:
-			return nil, fmt.Errorf("writePolicyChainRules: unexpected statement %s", g.p.Src(st))
+// sliceToks evaluates a []string-valued expression built from literals, known locals and append.
+func (g *gen) sliceToks(e ast.Expr, env map[string][]string, ren map[string]string) ([]string, bool, error) {
+	e = stripParens(e)
+	if els, ok := stringSliceLit(e); ok {
+		t, err := g.toksOf(els, ren)
+		return t, true, err
+	}
+	if id, ok := e.(*ast.Ident); ok {
+		if t, ok := env[id.Name]; ok {
+			return append([]string{}, t...), true, nil
 		}
+		return nil, false, nil
 	}
-	if !seenWrite {
-		return nil, fmt.Errorf("writePolicyChainRules: block does not write its rule")
+	if c, ok := e.(*ast.CallExpr); ok && txt(c.Fun) == "append" && len(c.Args) >= 1 {
+		base, ok, err := g.sliceToks(c.Args[0], env, ren)
+		if !ok || err != nil {
+			return nil, ok, err
+		}
+		if c.Ellipsis != token.NoPos {
+			if len(c.Args) != 2 {
+				return nil, false, nil
+			}
+			more, ok, err := g.sliceToks(c.Args[1], env, ren)
+			if !ok || err != nil {
+				return nil, ok, err
+			}
+			return append(base, more...), true, nil
+		}
+		more, err := g.toksOf(c.Args[1:], ren)
+		return append(base, more...), true, err
 	}
-	return toks, nil
+	return nil, false, nil
+}
+
+// writeLineToks: the words of `writeLine(buf, …)`.
+func (g *gen) writeLineToks(c *ast.CallExpr, buf string, env map[string][]string, ren map[string]string) ([]string, bool, error) {
+	if c == nil || txt(c.Fun) != "writeLine" || len(c.Args) < 1 || txt(c.Args[0]) != buf {
+		return nil, false, nil
+	}
+	if c.Ellipsis != token.NoPos {
+		if len(c.Args) != 2 {
+			return nil, false, fmt.Errorf("unexpected %s", txt(c))
+		}
+		t, ok, err := g.sliceToks(c.Args[1], env, ren)
+		if err == nil && !ok {
+			err = fmt.Errorf("cannot evaluate the words of %s", txt(c))
+		}
+		return t, true, err
+	}
+	t, err := g.toksOf(c.Args[1:], ren)
+	return t, true, err
+}
+
+type plcyLine struct {
+	guards []string // conditions (conjuncts) under which the line is written
+	loop   string   // "" or the ports parameter the chunk loop runs over
+	toks   []string
+}
+
+// chunkLoop recognises `for i := 0; i < len(P); i += C { e := i + C; if e > len(P) { e = len(P) }; … }`
+// (canonical form; names free) and returns P, the text of C, the loop variable, the bound variable and the rest of the
+// body.
+func chunkLoop(f *ast.ForStmt) (ports, step, iv, ev string, rest []ast.Stmt, ok bool) {
+	as, isAs := f.Init.(*ast.AssignStmt)
+	if !isAs || as.Tok != token.DEFINE || len(as.Lhs) != 1 || len(as.Rhs) != 1 || txt(as.Rhs[0]) != "0" {
+		return
+	}
+	iv = txt(as.Lhs[0])
+	c, isB := f.Cond.(*ast.BinaryExpr)
+	if !isB || c.Op != token.LSS || txt(c.X) != iv {
+		return
+	}
+	ln, isC := c.Y.(*ast.CallExpr)
+	if !isC || txt(ln.Fun) != "len" || len(ln.Args) != 1 {
+		return
+	}
+	ports = txt(ln.Args[0])
+	post, isAs := f.Post.(*ast.AssignStmt)
+	if !isAs || post.Tok != token.ADD_ASSIGN || txt(post.Lhs[0]) != iv {
+		return
+	}
+	step = txt(post.Rhs[0])
+	if len(f.Body.List) < 3 {
+		return
+	}
+	d, isAs := f.Body.List[0].(*ast.AssignStmt)
+	if !isAs || d.Tok != token.DEFINE || len(d.Lhs) != 1 || txt(d.Rhs[0]) != iv+" + "+step {
+		return
+	}
+	ev = txt(d.Lhs[0])
+	if txt(f.Body.List[1]) != "if "+ev+" > len("+ports+") { "+ev+" = len("+ports+") }" {
+		return
+	}
+	return ports, step, iv, ev, f.Body.List[2:], true
 }
 
 func (g *gen) policyChainTemplates() error {
-	fd, err := g.p.Fn("", "writePolicyChainRules")
+	nf, err := g.fn("writePolicyChainRules")
 	if err != nil {
 		return err
 	}
-	var params []string
-	for _, f := range fd.Type.Params.List {
-		for _, n := range f.Names {
-			params = append(params, n.Name)
-		}
-	}
-	g.emit("-- writePolicyChainRules(%s)", strings.Join(params, ", "))
+	params := paramNames(nf.Decl)
+	g.emit("-- writePolicyChainRules(%s): parameters by POSITION (canonical names)", strings.Join(params, ", "))
 	g.emit("def plcyParams : List String := %s", leanStrs(params))
-	if len(fd.Body.List) != 1 {
+	if len(nf.Decl.Body.List) != 1 {
 		return fmt.Errorf("writePolicyChainRules: expected a single outer loop")
 	}
-	outer, ok := fd.Body.List[0].(*ast.RangeStmt)
-	if !ok || len(outer.Body.List) != 1 {
+	outer, ok := nf.Decl.Body.List[0].(*ast.RangeStmt)
+	if !ok || len(outer.Body.List) != 1 || outer.Value == nil {
 		return fmt.Errorf("writePolicyChainRules: expected `for range` over the source tables")
 	}
 	inner, ok := outer.Body.List[0].(*ast.RangeStmt)
-	if !ok {
+	if !ok || inner.Value == nil {
 		return fmt.Errorf("writePolicyChainRules: expected nested `for range` over the destination tables")
 	}
-	g.emit("def plcyOuterLoop : String × String := (%s, %s)", fg.LeanStr(g.p.Src(outer.Value)), fg.LeanStr(g.p.Src(outer.X)))
-	g.emit("def plcyInnerLoop : String × String := (%s, %s)", fg.LeanStr(g.p.Src(inner.Value)), fg.LeanStr(g.p.Src(inner.X)))
-	if len(inner.Body.List) != 4 {
-		return fmt.Errorf("writePolicyChainRules: expected setRules + three guarded templates, found %d statements",
-			len(inner.Body.List))
-	}
-	as, ok := inner.Body.List[0].(*ast.AssignStmt)
-	if !ok || g.p.Src(as.Lhs[0]) != "setRules" {
-		return fmt.Errorf("writePolicyChainRules: first statement of the inner loop is not setRules := ...")
-	}
-	els, ok := stringSliceLit(as.Rhs[0])
-	if !ok {
-		return fmt.Errorf("writePolicyChainRules: setRules is not a []string literal")
-	}
-	t, err := g.toksOf(els)
-	if err != nil {
-		return err
-	}
-	g.emit("def plcySetRules : List Tok := %s", leanToks(t))
-	var guards []string
+	g.emit("def plcyOuterLoop : String × String := (%s, %s)", fg.LeanStr(txt(outer.Value)), fg.LeanStr(txt(outer.X)))
+	g.emit("def plcyInnerLoop : String × String := (%s, %s)", fg.LeanStr(txt(inner.Value)), fg.LeanStr(txt(inner.X)))
+	var lines []plcyLine
 	chunk := int64(-1) // -1 = not seen yet, 0 = no chunking (one rule per protocol), n = chunks of at most n ports
-	for i, name := range []string{"plcyTcp", "plcyUdp", "plcyAll"} {
-		var body *ast.BlockStmt
-		switch st := inner.Body.List[i+1].(type) {
-		case *ast.IfStmt:
-			if st.Else != nil || st.Init != nil {
-				return fmt.Errorf("writePolicyChainRules: statement %d of the inner loop is not a plain if", i+1)
-			}
-			guards = append(guards, g.p.Src(st.Cond))
-			body = st.Body
-			if i < 2 {
-				if chunk > 0 {
+	var interp func(list []ast.Stmt, env map[string][]string, guards []string, loop string, ren map[string]string) error
+	interp = func(list []ast.Stmt, env map[string][]string, guards []string, loop string, ren map[string]string) error {
+		outer := map[string]bool{} // word lists that exist before this block: inside a chunk loop they must not grow
+		for k := range env {
+			outer[k] = true
+		}
+		for _, st := range list {
+			switch s := st.(type) {
+			case *ast.AssignStmt:
+				if len(s.Lhs) == 1 && len(s.Rhs) == 1 {
+					if id, ok := s.Lhs[0].(*ast.Ident); ok {
+						if loop != "" && s.Tok != token.DEFINE && outer[id.Name] {
+							return fmt.Errorf("writePolicyChainRules: the words %s are carried from one chunk of ports to the next", id.Name)
+						}
+						t, ok, err := g.sliceToks(s.Rhs[0], env, ren)
+						if err != nil {
+							return err
+						}
+						if ok {
+							env[id.Name] = t
+							continue
+						}
+					}
+				}
+				return fmt.Errorf("writePolicyChainRules: unexpected statement %s", txt(s))
+			case *ast.ExprStmt:
+				c, _ := s.X.(*ast.CallExpr)
+				t, ok, err := g.writeLineToks(c, params[0], env, ren)
+				if err != nil {
+					return fmt.Errorf("writePolicyChainRules: %v", err)
+				}
+				if !ok {
+					return fmt.Errorf("writePolicyChainRules: unexpected statement %s", txt(s))
+				}
+				lines = append(lines, plcyLine{append([]string{}, guards...), loop, t})
+			case *ast.IfStmt:
+				if s.Else != nil {
+					return fmt.Errorf("writePolicyChainRules: unexpected else in %s", txt(s))
+				}
+				if len(s.Body.List) == 1 && txt(s.Body.List[0]) == "continue" && loop == "" {
+					guards = append(append([]string{}, guards...), conjuncts(g.nz, negate(copyExpr(s.Cond)))...)
+					continue
+				}
+				cp := map[string][]string{}
+				for k, v := range env {
+					cp[k] = v
+				}
+				if err := interp(s.Body.List, cp, append(append([]string{}, guards...), conjuncts(g.nz, s.Cond)...), loop, ren); err != nil {
+					return err
+				}
+			case *ast.ForStmt:
+				ports, step, iv, ev, rest, ok := chunkLoop(s)
+				if !ok || loop != "" {
+					return fmt.Errorf("writePolicyChainRules: loop is not a chunk loop over a port list: %s", txt(s))
+				}
+				var n int64
+				if v, err := strconv.ParseInt(step, 0, 64); err == nil {
+					n = v
+				} else if n, err = g.p.ConstInt(step); err != nil {
+					return err
+				}
+				if n <= 0 || (chunk >= 0 && chunk != n) {
 					return fmt.Errorf("writePolicyChainRules: tcp and udp templates are not of the same shape")
 				}
-				chunk = 0
+				chunk = n
+				cp := map[string][]string{}
+				for k, v := range env {
+					cp[k] = v
+				}
+				if err := interp(rest, cp, guards, ports, map[string]string{ports + "[" + iv + ":" + ev + "]": ports + "[i:end]"}); err != nil {
+					return err
+				}
+			default:
+				return fmt.Errorf("writePolicyChainRules: unexpected statement %s", txt(st))
 			}
-		case *ast.ForStmt:
-			// for i := 0; i < len(ports); i += <const> { end := i + <const>; if end > len(ports) { end = len(ports) }; <template> }
-			if i >= 2 {
-				return fmt.Errorf("writePolicyChainRules: the port-less template is not expected in a loop")
-			}
-			ports := []string{"tcpPorts", "udpPorts"}[i]
-			hdr := strings.Join(strings.Fields("for "+g.p.Src(st.Init)+"; "+g.p.Src(st.Cond)+"; "+g.p.Src(st.Post)), " ")
-			if hdr != "for i := 0; i < len("+ports+"); i += maxMultiportPorts" || len(st.Body.List) < 3 {
-				return fmt.Errorf("writePolicyChainRules: chunk loop header changed: %s", hdr)
-			}
-			s0 := strings.Join(strings.Fields(g.p.Src(st.Body.List[0])), " ")
-			s1 := strings.Join(strings.Fields(g.p.Src(st.Body.List[1])), " ")
-			if s0 != "end := i + maxMultiportPorts" || s1 != "if end > len("+ports+") { end = len("+ports+") }" {
-				return fmt.Errorf("writePolicyChainRules: chunk bounds changed: %s / %s", s0, s1)
-			}
-			n, err := g.p.ConstInt("maxMultiportPorts")
-			if err != nil {
-				return err
-			}
-			if chunk == 0 || (chunk > 0 && chunk != n) || n <= 0 {
+		}
+		return nil
+	}
+	if err := interp(inner.Body.List, map[string][]string{}, nil, "", nil); err != nil {
+		return err
+	}
+	if len(lines) != 3 {
+		return fmt.Errorf("writePolicyChainRules: expected three rule templates (tcp, udp, all), found %d", len(lines))
+	}
+	var guards []string
+	for i, name := range []string{"plcyTcp", "plcyUdp", "plcyAll"} {
+		l := lines[i]
+		sort.Strings(l.guards)
+		switch {
+		case i < 2 && l.loop == params[5+i] && len(l.guards) == 0:
+			guards = append(guards, "for i := 0; i < len("+l.loop+"); i += maxMultiportPorts")
+		case i < 2 && l.loop == "" && len(l.guards) == 1:
+			if chunk > 0 {
 				return fmt.Errorf("writePolicyChainRules: tcp and udp templates are not of the same shape")
 			}
-			chunk = n
-			guards = append(guards, hdr)
-			body = &ast.BlockStmt{List: st.Body.List[2:]}
+			chunk = 0
+			guards = append(guards, l.guards[0])
+		case i == 2 && l.loop == "":
+			guards = append(guards, strings.Join(l.guards, " && "))
 		default:
-			return fmt.Errorf("writePolicyChainRules: statement %d of the inner loop is neither an if nor a chunk loop", i+1)
+			return fmt.Errorf("writePolicyChainRules: template %d is written under unexpected conditions (loop %q, guards %v)",
+				i, l.loop, l.guards)
 		}
-		t, err := g.argsBlock(body)
-		if err != nil {
-			return err
-		}
-		g.emit("def %s : List Tok := %s", name, leanToks(t))
+		g.emit("def %s : List Tok := %s", name, leanToks(l.toks))
+	}
+	if chunk < 0 {
+		chunk = 0
 	}
 	g.emit("-- ports per emitted rule: 0 = all ports of a protocol in ONE rule, n = chunks of at most n (multiport takes 15)")
 	g.emit("def multiportChunk : Nat := %d", chunk)
@@ -329,91 +445,91 @@ func (g *gen) policyChainTemplates() error {
 
 // writeRules: the arguments of the two writePolicyChainRules calls and the table-name lists built before them.
 func (g *gen) writeRulesFacts() error {
-	fd, err := g.p.Fn("PolicyManager", "writeRules")
+	nf, err := g.fn("writeRules")
 	if err != nil {
 		return err
 	}
-	var calls [][]string
-	var appends []string
-	ast.Inspect(fd.Body, func(n ast.Node) bool {
-		switch x := n.(type) {
-		case *ast.CallExpr:
-			if g.p.Src(x.Fun) == "writePolicyChainRules" {
-				var as []string
-				for _, a := range x.Args {
-					as = append(as, strings.Join(strings.Fields(g.p.Src(a)), " "))
-				}
-				calls = append(calls, as)
-			}
-		case *ast.AssignStmt:
-			if len(x.Rhs) == 1 {
-				if c, ok := x.Rhs[0].(*ast.CallExpr); ok && g.p.Src(c.Fun) == "append" {
-					appends = append(appends, g.p.Src(x))
-				}
+	evs := events(g.nz, nf.Decl.Body.List, nil)
+	type wcall struct {
+		args    []string
+		appends []string
+	}
+	var calls []wcall
+	for _, e := range evs {
+		if e.call == nil || txt(e.call.Fun) != "writePolicyChainRules" || len(e.call.Args) != 7 {
+			continue
+		}
+		dir, role, want := 3, "srcTableNames", "range policy.ingressRule.srcRules"
+		if len(calls) == 1 {
+			dir, role, want = 4, "dstTableNames", "range policy.egressRule.dstRules"
+		}
+		if !e.has(want) || !e.has("range polices") {
+			return fmt.Errorf("writeRules: call %d of writePolicyChainRules is not inside the expected loops (%v)", len(calls), e.ctx)
+		}
+		wc := wcall{}
+		local := ""
+		if id, ok := e.call.Args[dir].(*ast.Ident); ok {
+			local = id.Name
+		}
+		for i, a := range e.call.Args {
+			if i == dir && local != "" {
+				wc.args = append(wc.args, role)
+			} else {
+				wc.args = append(wc.args, txt(a))
 			}
 		}
-		return true
-	})
+		// the appends to the table-name list, in order (same loop iteration)
+		for _, a := range evs {
+			as, ok := a.stmt.(*ast.AssignStmt)
+			if !ok || local == "" || len(as.Lhs) != 1 || txt(as.Lhs[0]) != local || !a.has(want) || a.call == nil ||
+				txt(a.call.Fun) != "append" || len(a.call.Args) != 2 || txt(a.call.Args[0]) != local {
+				continue
+			}
+			wc.appends = append(wc.appends, role+" = append("+role+", "+txt(a.call.Args[1])+")")
+		}
+		calls = append(calls, wc)
+	}
 	if len(calls) != 2 {
 		return fmt.Errorf("writeRules: expected two writePolicyChainRules calls, found %d", len(calls))
 	}
 	g.emit("-- writeRules: arguments of the ingress / egress writePolicyChainRules calls; table-name appends in order")
-	g.emit("def writeRulesIngressCall : List String := %s", leanStrs(calls[0]))
-	g.emit("def writeRulesEgressCall : List String := %s", leanStrs(calls[1]))
-	g.emit("def writeRulesAppends : List String := %s", leanStrs(appends))
+	g.emit("def writeRulesIngressCall : List String := %s", leanStrs(calls[0].args))
+	g.emit("def writeRulesEgressCall : List String := %s", leanStrs(calls[1].args))
+	g.emit("def writeRulesAppends : List String := %s", leanStrs(append(calls[0].appends, calls[1].appends...)))
 	return nil
 }
 
 // ---- set / chain names and hashes
 
-func (g *gen) sprintfAssigns(block *ast.BlockStmt) [][3]string {
+// nameAssigns: `X.Name = fmt.Sprintf(format, args…)` statements among the events: (X, format, args).
+func nameAssigns(evs []event, need string) [][3]string {
 	var out [][3]string
-	ast.Inspect(block, func(n ast.Node) bool {
-		as, ok := n.(*ast.AssignStmt)
-		if !ok || len(as.Lhs) != 1 || len(as.Rhs) != 1 {
-			return true
+	for _, e := range evs {
+		as, ok := e.stmt.(*ast.AssignStmt)
+		if !ok || len(as.Lhs) != 1 || e.call == nil || txt(e.call.Fun) != "fmt.Sprintf" || len(e.call.Args) < 1 ||
+			!strings.HasSuffix(txt(as.Lhs[0]), ".Name") || (need != "" && !e.has(need)) {
+			continue
 		}
-		call, ok := as.Rhs[0].(*ast.CallExpr)
-		if !ok || g.p.Src(call.Fun) != "fmt.Sprintf" || len(call.Args) < 1 {
-			return true
-		}
-		bl, ok := call.Args[0].(*ast.BasicLit)
+		f, ok := strLit(e.call.Args[0])
 		if !ok {
-			return true
+			continue
 		}
-		f, _ := strconv.Unquote(bl.Value)
 		var args []string
-		for _, a := range call.Args[1:] {
-			args = append(args, g.p.Src(a))
+		for _, a := range e.call.Args[1:] {
+			args = append(args, txt(a))
 		}
-		out = append(out, [3]string{g.p.Src(as.Lhs[0]), f, strings.Join(args, ",")})
-		return true
-	})
+		out = append(out, [3]string{txt(as.Lhs[0]), f, strings.Join(args, ",")})
+	}
 	return out
 }
 
 func (g *gen) nameFormats() error {
-	fd, err := g.p.Fn("PolicyManager", "policyResult")
+	nf, err := g.fn("policyResult")
 	if err != nil {
 		return err
 	}
-	var top, ing, egr [][3]string
-	for _, st := range fd.Body.List {
-		if is, ok := st.(*ast.IfStmt); ok {
-			switch g.p.Src(is.Cond) {
-			case "ingress":
-				ing = g.sprintfAssigns(is.Body)
-				continue
-			case "egress":
-				egr = g.sprintfAssigns(is.Body)
-				continue
-			}
-		}
-		if as, ok := st.(*ast.AssignStmt); ok {
-			b := &ast.BlockStmt{List: []ast.Stmt{as}}
-			top = append(top, g.sprintfAssigns(b)...)
-		}
-	}
+	evs := events(g.nz, nf.Decl.Body.List, nil)
+	hash := "tableNameHash(fmt.Sprintf(\"%s_%s\", np.Name, np.Namespace))"
 	find := func(xs [][3]string, lhs, args string) (string, error) {
 		for _, x := range xs {
 			if x[0] == lhs && x[2] == args {
@@ -422,33 +538,66 @@ func (g *gen) nameFormats() error {
 		}
 		return "", fmt.Errorf("policyResult: no `%s = fmt.Sprintf(_, %s)` where expected", lhs, args)
 	}
-	sel, err := find(top, "tbl.Name", "NamePrefix,npNameHash")
-	if err != nil {
-		return err
-	}
-	var hashIn string
-	ast.Inspect(fd.Body, func(n ast.Node) bool {
-		as, ok := n.(*ast.AssignStmt)
-		if ok && len(as.Lhs) == 1 && g.p.Src(as.Lhs[0]) == "npNameHash" {
-			hashIn = strings.Join(strings.Fields(g.p.Src(as.Rhs[0])), " ")
+	// the ingress / egress flags are the two results of ingressOrEgress(np); the rules of a direction are named inside
+	// the loop over that direction's rules, under that direction's flag
+	flags := false
+	for _, e := range evs {
+		if as, ok := e.stmt.(*ast.AssignStmt); ok && len(as.Lhs) == 2 && e.call != nil && txt(e.call) == "ingressOrEgress(np)" &&
+			txt(as.Lhs[0]) == "ingress" && txt(as.Lhs[1]) == "egress" && onlyErrGuards(e.ctx) {
+			flags = true
 		}
-		return true
-	})
-	sip, err := find(ing, "rule.ipTable.Name", "NamePrefix,i,npNameHash")
+	}
+	if !flags {
+		return fmt.Errorf("policyResult: `ingress, egress := ingressOrEgress(np)` not found at the top level")
+	}
+	var top, ing, egr [][3]string
+	for _, x := range nameAssigns(evs, "") {
+		top = append(top, x)
+	}
+	for _, e := range evs {
+		one := nameAssigns([]event{e}, "")
+		if len(one) == 0 {
+			continue
+		}
+		switch {
+		case e.has("ingress") && e.has("range np.Spec.Ingress") && !e.has("egress"):
+			ing = append(ing, one[0])
+		case e.has("egress") && e.has("range np.Spec.Egress") && !e.has("ingress"):
+			egr = append(egr, one[0])
+		}
+	}
+	sel, err := find(top, "tbl.Name", "NamePrefix,"+hash)
 	if err != nil {
 		return err
 	}
-	snet, err := find(ing, "rule.netTable.Name", "NamePrefix,i,npNameHash")
+	sip, err := find(ing, "rule.ipTable.Name", "NamePrefix,i,"+hash)
 	if err != nil {
 		return err
 	}
-	dip, err := find(egr, "rule.ipTable.Name", "NamePrefix,i,npNameHash")
+	snet, err := find(ing, "rule.netTable.Name", "NamePrefix,i,"+hash)
 	if err != nil {
 		return err
 	}
-	dnet, err := find(egr, "rule.netTable.Name", "NamePrefix,i,npNameHash")
+	dip, err := find(egr, "rule.ipTable.Name", "NamePrefix,i,"+hash)
 	if err != nil {
 		return err
+	}
+	dnet, err := find(egr, "rule.netTable.Name", "NamePrefix,i,"+hash)
+	if err != nil {
+		return err
+	}
+	// `rule` is what peerRule compiles from the ports and the peers of rule i of that direction
+	okRule := 0
+	for _, e := range evs {
+		if as, ok := e.stmt.(*ast.AssignStmt); ok && len(as.Lhs) == 1 && txt(as.Lhs[0]) == "rule" && e.call != nil {
+			if (txt(e.call) == "p.peerRule(ir.Ports, ir.From)" && e.has("range np.Spec.Ingress")) ||
+				(txt(e.call) == "p.peerRule(ir.Ports, ir.To)" && e.has("range np.Spec.Egress")) {
+				okRule++
+			}
+		}
+	}
+	if okRule != 2 {
+		return fmt.Errorf("policyResult: the rules are no longer compiled by p.peerRule(ir.Ports, ir.From / ir.To) per rule")
 	}
 	g.emit("-- policyResult: set names; args are (NamePrefix, npNameHash) resp. (NamePrefix, i, npNameHash)")
 	g.emit("def fmtSelSet : String := %s", fg.LeanStr(sel))
@@ -456,33 +605,32 @@ func (g *gen) nameFormats() error {
 	g.emit("def fmtIngressNetSet : String := %s", fg.LeanStr(snet))
 	g.emit("def fmtEgressIpSet : String := %s", fg.LeanStr(dip))
 	g.emit("def fmtEgressNetSet : String := %s", fg.LeanStr(dnet))
-	g.emit("def setHashInput : String := %s", fg.LeanStr(hashIn))
+	g.emit("def setHashInput : String := %s", fg.LeanStr(hash))
 	// the ingress / egress blocks must hang the tables on the shared selector table
-	if !strings.Contains(g.p.Src(fd.Body), "inRules = &ingressRule{dstIPTable: tbl}") ||
-		!strings.Contains(g.p.Src(fd.Body), "eRules = &egressRule{srcIPTable: tbl}") {
+	if !strings.Contains(nf.Text, "&ingressRule{dstIPTable: tbl}") || !strings.Contains(nf.Text, "&egressRule{srcIPTable: tbl}") {
 		return fmt.Errorf("policyResult: ingress / egress rules no longer share the selector table `tbl`")
 	}
 	g.emit("def selSetShared : Bool := true")
 
 	for _, fn := range []string{"policyChainName", "podChainName"} {
-		fd, err := g.p.Fn("", fn)
+		nf, err := g.fn(fn)
 		if err != nil {
 			return err
 		}
-		if len(fd.Body.List) != 1 {
+		ret, ok := nf.Decl.Body.List[0].(*ast.ReturnStmt)
+		if len(nf.Decl.Body.List) != 1 || !ok || len(ret.Results) != 1 {
 			return fmt.Errorf("%s: expected a single return", fn)
 		}
-		g.emit("def %sExpr : String := %s", fn, fg.LeanStr(strings.Join(strings.Fields(
-			strings.TrimPrefix(g.p.Src(fd.Body.List[0]), "return ")), " ")))
+		g.emit("def %sExpr : String := %s", fn, fg.LeanStr(txt(ret.Results[0])))
 	}
 	for _, fn := range []string{"nameHash", "tableNameHash"} {
-		fd, err := g.p.Fn("", fn)
+		nf, err := g.fn(fn)
 		if err != nil {
 			return err
 		}
 		var lines []string
-		for _, st := range fd.Body.List {
-			lines = append(lines, strings.Join(strings.Fields(g.p.Src(st)), " "))
+		for _, st := range nf.Decl.Body.List {
+			lines = append(lines, txt(st))
 		}
 		g.emit("def %sBody : List String := %s", fn, leanStrs(lines))
 	}
@@ -492,280 +640,418 @@ func (g *gen) nameFormats() error {
 // ---- ingressOrEgress
 
 func (g *gen) boolExpr(e ast.Expr) (string, error) {
-	s := strings.Join(strings.Fields(g.p.Src(e)), " ")
-	switch s {
+	switch s := txt(e); s {
 	case "true":
 		return "true", nil
 	case "false":
 		return "false", nil
-	case "len(np.Spec.Egress) > 0":
+	case "len(np.Spec.Egress) > 0", "len(np.Spec.Egress) != 0":
 		return "decide (nEgress > 0)", nil
-	case "len(np.Spec.Ingress) > 0":
+	case "len(np.Spec.Ingress) > 0", "len(np.Spec.Ingress) != 0":
 		return "decide (nIngress > 0)", nil
+	default:
+		return "", fmt.Errorf("ingressOrEgress: cannot translate default expression %q", s)
 	}
-	return "", fmt.Errorf("ingressOrEgress: cannot translate default expression %q", s)
 }
 
 func (g *gen) ingressOrEgress() error {
-	fd, err := g.p.Fn("", "ingressOrEgress")
+	nf, err := g.fn("ingressOrEgress")
 	if err != nil {
 		return err
 	}
-	if len(fd.Body.List) != 3 {
-		return fmt.Errorf("ingressOrEgress: expected loop, default-if, return")
+	res := fieldNames(nf.Decl.Type.Results)
+	if len(res) != 2 || res[0] != "ingress" || res[1] != "egress" {
+		return fmt.Errorf("ingressOrEgress: expected two named results")
 	}
-	loop, ok := fd.Body.List[0].(*ast.RangeStmt)
-	if !ok || g.p.Src(loop.X) != "np.Spec.PolicyTypes" || len(loop.Body.List) != 1 {
-		return fmt.Errorf("ingressOrEgress: first statement is not the loop over PolicyTypes")
-	}
-	want := "if pt == networkv1.PolicyTypeIngress { ingress = true } else if pt == networkv1.PolicyTypeEgress { egress = true }"
-	if got := strings.Join(strings.Fields(g.p.Src(loop.Body.List[0])), " "); got != want {
-		return fmt.Errorf("ingressOrEgress: loop body changed: %s", got)
-	}
-	is, ok := fd.Body.List[1].(*ast.IfStmt)
-	if !ok || g.p.Src(is.Cond) != "!ingress && !egress" || is.Else != nil || len(is.Body.List) != 2 {
-		return fmt.Errorf("ingressOrEgress: defaulting if changed")
-	}
-	var di, de string
-	for _, st := range is.Body.List {
-		as, ok := st.(*ast.AssignStmt)
-		if !ok || len(as.Lhs) != 1 {
-			return fmt.Errorf("ingressOrEgress: defaulting body changed")
+	evs := events(g.nz, nf.Decl.Body.List, nil)
+	loopSets := map[string]string{} // flag -> policy type under which the loop sets it
+	defaults := map[string]string{}
+	var defCtx []string
+	for _, e := range evs {
+		switch s := e.stmt.(type) {
+		case *ast.AssignStmt:
+			if len(s.Lhs) != 1 || len(s.Rhs) != 1 {
+				return fmt.Errorf("ingressOrEgress: unexpected statement %s", txt(s))
+			}
+			flag := txt(s.Lhs[0])
+			if flag != "ingress" && flag != "egress" {
+				return fmt.Errorf("ingressOrEgress: unexpected statement %s", txt(s))
+			}
+			if e.has("range np.Spec.PolicyTypes") {
+				// set under exactly one positive condition `pt == <type>` (negations of the other branches of an
+				// if-chain / switch do not matter: the types are distinct constants)
+				var pos []string
+				for _, c := range e.conds() {
+					if strings.HasPrefix(c, "pt == ") {
+						pos = append(pos, strings.TrimPrefix(c, "pt == "))
+					} else if !strings.HasPrefix(c, "pt != ") {
+						return fmt.Errorf("ingressOrEgress: flag set under unexpected condition %s", c)
+					}
+				}
+				if len(pos) != 1 || txt(s.Rhs[0]) != "true" || loopSets[flag] != "" {
+					return fmt.Errorf("ingressOrEgress: loop body changed: %s under %v", txt(s), e.ctx)
+				}
+				loopSets[flag] = pos[0]
+				continue
+			}
+			v, err := g.boolExpr(s.Rhs[0])
+			if err != nil {
+				return err
+			}
+			if _, dup := defaults[flag]; dup {
+				return fmt.Errorf("ingressOrEgress: flag %s defaulted twice", flag)
+			}
+			defaults[flag] = v
+			if defCtx != nil && !sameSet(defCtx, e.conds()) {
+				return fmt.Errorf("ingressOrEgress: the two defaults are set under different conditions")
+			}
+			defCtx = e.conds()
+		case *ast.ReturnStmt:
+			if len(s.Results) != 0 && txt(s) != "return ingress, egress" {
+				return fmt.Errorf("ingressOrEgress: unexpected %s", txt(s))
+			}
+		default:
+			return fmt.Errorf("ingressOrEgress: unexpected statement %s", txt(e.stmt))
 		}
-		v, err := g.boolExpr(as.Rhs[0])
-		if err != nil {
-			return err
-		}
-		switch g.p.Src(as.Lhs[0]) {
-		case "ingress":
-			di = v
-		case "egress":
-			de = v
-		}
 	}
-	if di == "" || de == "" {
-		return fmt.Errorf("ingressOrEgress: defaulting body does not assign both flags")
+	if loopSets["ingress"] != "networkv1.PolicyTypeIngress" || loopSets["egress"] != "networkv1.PolicyTypeEgress" {
+		return fmt.Errorf("ingressOrEgress: loop body changed: flags set for %v", loopSets)
+	}
+	if !sameSet(defCtx, []string{"!ingress", "!egress"}) || defaults["ingress"] == "" || defaults["egress"] == "" {
+		return fmt.Errorf("ingressOrEgress: defaulting changed (conditions %v, defaults %v)", defCtx, defaults)
 	}
 	g.emit("-- ingressOrEgress: flags are set by the loop over policyTypes; when neither is set the defaults below apply")
 	g.emit("def ioeLoopSetsFlagPerType : Bool := true")
-	g.emit("def ioeDefaultCond : String := %s", fg.LeanStr(g.p.Src(is.Cond)))
-	g.emit("def defaultIngress (nIngress nEgress : Nat) : Bool := %s", di)
-	g.emit("def defaultEgress (nIngress nEgress : Nat) : Bool := %s", de)
+	g.emit("def ioeDefaultCond : String := %s", fg.LeanStr("!ingress && !egress"))
+	g.emit("def defaultIngress (nIngress nEgress : Nat) : Bool := %s", defaults["ingress"])
+	g.emit("def defaultEgress (nIngress nEgress : Nat) : Bool := %s", defaults["egress"])
 	return nil
 }
 
 // ---- rulePorts / peerTable / ipBlockToTable
 
-func (g *gen) rulePorts() error {
-	fd, err := g.p.Fn("", "rulePorts")
-	if err != nil {
-		return err
-	}
-	var loop *ast.RangeStmt
-	for _, st := range fd.Body.List {
-		if r, ok := st.(*ast.RangeStmt); ok {
-			loop = r
+// definedBy: name of the i-th variable defined (or assigned) from a call with this canonical text, "" if none.
+func definedBy(evs []event, call string, i int) string {
+	for _, e := range evs {
+		if as, ok := e.stmt.(*ast.AssignStmt); ok && e.call != nil && txt(e.call) == call && i < len(as.Lhs) {
+			return txt(as.Lhs[i])
 		}
 	}
-	if loop == nil || len(loop.Body.List) != 3 {
-		return fmt.Errorf("rulePorts: loop shape changed")
-	}
-	as, ok := loop.Body.List[0].(*ast.AssignStmt)
-	if !ok || g.p.Src(as.Lhs[0]) != "protocol" {
-		return fmt.Errorf("rulePorts: default protocol assignment not found")
-	}
-	def, err := g.evalStr(as.Rhs[0])
+	return ""
+}
+
+func (g *gen) rulePorts() error {
+	nf, err := g.fn("rulePorts")
 	if err != nil {
 		return err
 	}
-	want1 := "if npp[j].Protocol != nil { protocol = strings.ToLower(string(*npp[j].Protocol)) }"
-	if got := strings.Join(strings.Fields(g.p.Src(loop.Body.List[1])), " "); got != want1 {
-		return fmt.Errorf("rulePorts: protocol override changed: %s", got)
+	evs := events(g.nz, nf.Decl.Body.List, nil)
+	// the two results: first = tcp list, second = udp list
+	var tcp, udp string
+	for _, e := range evs {
+		if r, ok := e.stmt.(*ast.ReturnStmt); ok && len(r.Results) == 2 && len(e.ctx) == 0 {
+			tcp, udp = txt(r.Results[0]), txt(r.Results[1])
+		}
 	}
-	is, ok := loop.Body.List[2].(*ast.IfStmt)
-	if !ok || g.p.Src(is.Cond) != "npp[j].Port != nil" || is.Else != nil || len(is.Body.List) != 1 {
-		return fmt.Errorf("rulePorts: port guard changed")
+	if tcp == "" || udp == "" || tcp == udp {
+		return fmt.Errorf("rulePorts: the function no longer returns its two port lists")
 	}
-	in, ok := is.Body.List[0].(*ast.IfStmt)
-	if !ok || in.Else == nil {
-		return fmt.Errorf("rulePorts: tcp/udp split changed")
+	const loop = "range npp"
+	proto, def := "", ""
+	var override, tcpCond, udpCond []string
+	nTcp, nUdp := 0, 0
+	for _, e := range evs {
+		as, ok := e.stmt.(*ast.AssignStmt)
+		if !ok || len(as.Lhs) != 1 || len(as.Rhs) != 1 {
+			continue
+		}
+		lhs, rhs := txt(as.Lhs[0]), txt(as.Rhs[0])
+		switch {
+		case lhs == tcp && rhs == "append("+tcp+", port.Port.String())" && e.has(loop):
+			tcpCond = e.conds()
+			nTcp++
+		case lhs == udp && rhs == "append("+udp+", port.Port.String())" && e.has(loop):
+			udpCond = e.conds()
+			nUdp++
+		case lhs == tcp || lhs == udp:
+			return fmt.Errorf("rulePorts: unexpected update of a port list: %s", txt(as))
+		case e.has(loop) && len(e.conds()) == 0 && proto == "":
+			if s, err := g.evalStr(as.Rhs[0]); err == nil {
+				proto, def = lhs, s
+			}
+		case e.has(loop) && lhs == proto && rhs == "strings.ToLower(string(*port.Protocol))":
+			override = e.conds()
+		case e.has(loop) && lhs == proto:
+			return fmt.Errorf("rulePorts: protocol override changed: %s", txt(as))
+		}
 	}
-	thenS := strings.Join(strings.Fields(g.p.Src(in.Body)), " ")
-	elseS := strings.Join(strings.Fields(g.p.Src(in.Else)), " ")
-	if !strings.Contains(thenS, "tcpPorts = append(tcpPorts, npp[j].Port.String())") ||
-		elseS != "{ udpPorts = append(udpPorts, npp[j].Port.String()) }" {
-		return fmt.Errorf("rulePorts: tcp/udp split changed: %s / %s", thenS, elseS)
+	if proto == "" {
+		return fmt.Errorf("rulePorts: default protocol assignment not found")
+	}
+	if !sameSet(override, []string{"port.Protocol != nil"}) {
+		return fmt.Errorf("rulePorts: protocol override changed: set under %v", override)
+	}
+	isTcp, notTcp := proto+` == "tcp"`, proto+` != "tcp"`
+	if nTcp != 1 || nUdp != 1 || !sameSet(tcpCond, []string{"port.Port != nil", isTcp}) || !sameSet(udpCond, []string{"port.Port != nil", notTcp}) {
+		return fmt.Errorf("rulePorts: tcp/udp split changed: tcp under %v, udp under %v", tcpCond, udpCond)
 	}
 	g.emit("-- rulePorts")
 	g.emit("def rulePortsDefaultProto : String := %s", fg.LeanStr(def))
-	g.emit("def rulePortsTcpCond : String := %s", fg.LeanStr(g.p.Src(in.Cond)))
-	g.emit("def rulePortsSkipsPortless : Bool := true   -- `if npp[j].Port != nil` without else")
+	g.emit("def rulePortsTcpCond : String := %s", fg.LeanStr(`protocol == "tcp"`))
+	g.emit("def rulePortsSkipsPortless : Bool := true   -- both lists grow only under `port.Port != nil`")
 	g.emit("def rulePortsNonTcpGoesUdp : Bool := true")
 	return nil
 }
 
 func (g *gen) peerTable() error {
-	fd, err := g.p.Fn("PolicyManager", "peerTable")
+	nf, err := g.fn("peerTable")
 	if err != nil {
 		return err
 	}
 	var cases []string
-	for _, st := range fd.Body.List {
-		is, ok := st.(*ast.IfStmt)
+	var seen []string
+	for _, e := range events(g.nz, nf.Decl.Body.List, nil) {
+		r, ok := e.stmt.(*ast.ReturnStmt)
 		if !ok {
-			continue
+			return fmt.Errorf("peerTable: unexpected statement %s", txt(e.stmt))
 		}
-		if len(is.Body.List) != 1 {
-			return fmt.Errorf("peerTable: case body changed")
+		if len(r.Results) != 1 {
+			continue // the final `return nil, error`
 		}
-		ret, ok := is.Body.List[0].(*ast.ReturnStmt)
-		if !ok || len(ret.Results) != 1 {
-			return fmt.Errorf("peerTable: case body changed")
+		// the case's own guard is the one positive condition; the negations of the earlier guards come with it
+		var own []string
+		for _, c := range e.conds() {
+			neg := false
+			for _, s := range seen {
+				if c == txt(negate(mustExpr(s))) {
+					neg = true
+				}
+			}
+			if !neg {
+				own = append(own, c)
+			}
 		}
-		cases = append(cases, "("+fg.LeanStr(g.p.Src(is.Cond))+", "+
-			fg.LeanStr(strings.Join(strings.Fields(g.p.Src(ret.Results[0])), " "))+")")
+		if len(own) != 1 {
+			return fmt.Errorf("peerTable: case body changed: %s under %v", txt(r), e.ctx)
+		}
+		seen = append(seen, own[0])
+		cases = append(cases, "("+fg.LeanStr(own[0])+", "+fg.LeanStr(txt(r.Results[0]))+")")
 	}
 	g.emit("-- peerTable: cases in order (guard, table built)")
 	g.emit("def peerTableCases : List (String × String) := [%s]", strings.Join(cases, ",\n  "))
 
-	fd, err = g.p.Fn("PolicyManager", "podSelectorToTable")
+	nf, err = g.fn("podSelectorToTable")
 	if err != nil {
 		return err
 	}
-	body := strings.Join(strings.Fields(g.p.Src(fd.Body)), " ")
-	g.emit("def podSelectorListsNamespaceArg : Bool := %s",
-		fg.LeanBool(strings.Contains(body, "p.podLister.Pods(namespace).List(podLabelSelector)")))
-	g.emit("def podSelectorTableType : Bool := %s   -- hash:ip of entries(list)",
-		fg.LeanBool(strings.Contains(body, "ipset.IPSet{SetType: ipset.HashIP}, entries: entries(list, ipset.HashIP)")))
+	evs := events(g.nz, nf.Decl.Body.List, nil)
+	list := definedBy(evs, "p.podLister.Pods(namespace).List(podLabelSelector)", 0)
+	g.emit("def podSelectorListsNamespaceArg : Bool := %s", fg.LeanBool(list != "" &&
+		definedBy(evs, "v1.LabelSelectorAsSelector(podSelector)", 0) == "podLabelSelector"))
+	g.emit("def podSelectorTableType : Bool := %s   -- hash:ip of entries(list)", fg.LeanBool(list != "" && strings.Contains(nf.Text,
+		"return &ipsetTable{IPSet: ipset.IPSet{SetType: ipset.HashIP}, entries: entries("+list+", ipset.HashIP)}, nil")))
 
-	fd, err = g.p.Fn("PolicyManager", "policyResult")
+	nf, err = g.fn("policyResult")
 	if err != nil {
 		return err
 	}
-	first := strings.Join(strings.Fields(g.p.Src(fd.Body.List[0])), " ")
+	first := ""
+	if evs := events(g.nz, nf.Decl.Body.List, nil); len(evs) > 0 && evs[0].call != nil {
+		if as, ok := evs[0].stmt.(*ast.AssignStmt); ok && len(as.Lhs) == 2 && txt(as.Lhs[0]) == "tbl" {
+			first = "tbl, err := " + txt(evs[0].call)
+		}
+	}
 	g.emit("def policyResultSelectorCall : String := %s", fg.LeanStr(first))
 
-	fd, err = g.p.Fn("", "ipBlockToTable")
+	nf, err = g.fn("ipBlockToTable")
 	if err != nil {
 		return err
 	}
-	body = strings.Join(strings.Fields(g.p.Src(fd.Body)), " ")
+	evs = events(g.nz, nf.Decl.Body.List, nil)
+	cidr := definedBy(evs, "formatCidr(cidr)", 0)
+	exc := definedBy(evs, "formatCidr(ex)", 0)
 	g.emit("-- ipBlockToTable")
-	g.emit("def ipBlockCidrEntry : Bool := %s", fg.LeanBool(strings.Contains(body,
-		"entries: []ipset.Entry{{Net: formatedCidr, SetType: ipset.HashNet}}")))
-	g.emit("def ipBlockExceptLoop : Bool := %s", fg.LeanBool(strings.Contains(body, "for i := range except {") &&
-		strings.Contains(body, "formatedExcept, err := formatCidr(except[i])")))
+	g.emit("def ipBlockCidrEntry : Bool := %s", fg.LeanBool(cidr != "" && strings.Contains(nf.Text,
+		"entries: []ipset.Entry{{Net: "+cidr+", SetType: ipset.HashNet}}")))
+	excLoop := false
 	opt := ""
-	ast.Inspect(fd.Body, func(n ast.Node) bool {
-		kv, ok := n.(*ast.KeyValueExpr)
-		if ok && g.p.Src(kv.Key) == "Options" {
-			if els, ok := stringSliceLit(kv.Value); ok && len(els) == 1 {
-				opt, _ = g.evalStr(els[0])
+	for _, e := range evs {
+		if as, ok := e.stmt.(*ast.AssignStmt); ok && e.has("range except") && e.call != nil && txt(e.call.Fun) == "append" &&
+			len(as.Lhs) == 1 && strings.HasSuffix(txt(as.Lhs[0]), ".entries") && len(e.call.Args) == 2 && exc != "" {
+			if cl, ok := e.call.Args[1].(*ast.CompositeLit); ok && strings.HasPrefix(txt(cl), "ipset.Entry{Net: "+exc+", SetType: ipset.HashNet") {
+				excLoop = true
+				for _, el := range cl.Elts {
+					if kv, ok := el.(*ast.KeyValueExpr); ok && txt(kv.Key) == "Options" {
+						if els, ok := stringSliceLit(kv.Value); ok && len(els) == 1 {
+							opt, _ = g.evalStr(els[0])
+						}
+					}
+				}
 			}
 		}
-		return true
-	})
+	}
+	g.emit("def ipBlockExceptLoop : Bool := %s", fg.LeanBool(excLoop))
 	g.emit("def ipBlockExceptOption : String := %s", fg.LeanStr(opt))
 
-	fd, err = g.p.Fn("", "formatCidr")
+	nf, err = g.fn("formatCidr")
 	if err != nil {
 		return err
 	}
-	body = strings.Join(strings.Fields(g.p.Src(fd.Body)), " ")
-	g.emit("def formatCidrMasksAndTrims32 : Bool := %s", fg.LeanBool(strings.Contains(body,
-		`return strings.TrimSuffix(ipnet.String(), "/32"), nil`)))
+	ipnet := definedBy(events(g.nz, nf.Decl.Body.List, nil), "net.ParseCIDR(cidr)", 1)
+	g.emit("def formatCidrMasksAndTrims32 : Bool := %s", fg.LeanBool(ipnet != "" && strings.Contains(nf.Text,
+		`return strings.TrimSuffix(`+ipnet+`.String(), "/32"), nil`)))
 
-	fd, err = g.p.Fn("PolicyManager", "peerRule")
+	nf, err = g.fn("peerRule")
 	if err != nil {
 		return err
 	}
-	body = strings.Join(strings.Fields(g.p.Src(fd.Body)), " ")
+	// the rule under construction: the local whose address is returned
+	rule := ""
+	for _, e := range events(g.nz, nf.Decl.Body.List, nil) {
+		if r, ok := e.stmt.(*ast.ReturnStmt); ok && len(r.Results) == 1 && len(e.ctx) == 0 {
+			rule = strings.TrimPrefix(txt(r.Results[0]), "&")
+		}
+	}
+	merges := 0
+	for _, e := range events(g.nz, nf.Decl.Body.List, nil) {
+		as, ok := e.stmt.(*ast.AssignStmt)
+		if !ok || len(as.Lhs) != 1 || !e.has("range peers") {
+			continue
+		}
+		for _, t := range [][2]string{{"ipTable", "ipset.HashIP"}, {"netTable", "ipset.HashNet"}} {
+			f := rule + "." + t[0]
+			if txt(as) == f+".entries = append("+f+".entries, tbl.entries...)" && e.has("tbl.SetType == "+t[1]) && e.has(f+" != nil") {
+				merges++
+			}
+			if txt(as) == f+" = tbl" && !(e.has("tbl.SetType == "+t[1]) && e.has(f+" == nil")) {
+				merges = -10
+			}
+		}
+	}
 	g.emit("-- peerRule: tables of one type are merged into one set per rule")
-	g.emit("def peerRuleMergesByType : Bool := %s", fg.LeanBool(
-		strings.Contains(body, "rule.ipTable.entries = append(rule.ipTable.entries, tbl.entries...)") &&
-			strings.Contains(body, "rule.netTable.entries = append(rule.netTable.entries, tbl.entries...)")))
+	g.emit("def peerRuleMergesByType : Bool := %s", fg.LeanBool(rule != "" && merges == 2 &&
+		definedBy(events(g.nz, nf.Decl.Body.List, nil), "p.peerTable(&peers[j])", 0) == "tbl"))
 	return nil
+}
+
+func mustExpr(s string) ast.Expr {
+	e, err := parseExpr(s)
+	if err != nil {
+		return ast.NewIdent("_")
+	}
+	return e
 }
 
 // ---- SyncPodChains / ensureBasicChain / filterMatchingPolicies
 
 func (g *gen) podChains() error {
-	fd, err := g.p.Fn("PolicyManager", "SyncPodChains")
+	nf, err := g.fn("SyncPodChains")
 	if err != nil {
 		return err
 	}
-	var lines [][]string
-	var hookArgs [][]string
+	evs := events(g.nz, nf.Decl.Body.List, nil)
+	// the rules buffer: the buffer that receives "COMMIT"
+	rulesBuf := ""
+	for _, e := range evs {
+		if e.call != nil && txt(e.call.Fun) == "writeLine" && len(e.call.Args) == 2 && txt(e.call.Args[1]) == `"COMMIT"` {
+			rulesBuf = txt(e.call.Args[0])
+		}
+	}
+	if rulesBuf == "" {
+		return fmt.Errorf("SyncPodChains: no COMMIT line written")
+	}
+	type ln struct {
+		toks []string
+		ev   event
+	}
+	var lines []ln
+	env := map[string][]string{}
 	type call struct{ op, pos, chain, cond string }
 	var calls []call
-	var walk func(n ast.Node, cond string)
-	walk = func(n ast.Node, cond string) {
-		switch x := n.(type) {
-		case *ast.BlockStmt:
-			for _, s := range x.List {
-				walk(s, cond)
-			}
-		case *ast.ForStmt:
-			walk(x.Body, cond)
-		case *ast.RangeStmt:
-			walk(x.Body, cond)
-		case *ast.IfStmt:
-			c := g.p.Src(x.Cond)
-			if x.Init != nil {
-				walk(x.Init, cond)
-				ast.Inspect(x.Init, func(m ast.Node) bool {
-					if ce, ok := m.(*ast.CallExpr); ok {
-						fn := g.p.Src(ce.Fun)
-						if fn == "p.iptableHandle.EnsureRule" && len(ce.Args) >= 4 {
-							calls = append(calls, call{"EnsureRule", g.p.Src(ce.Args[0]), g.p.Src(ce.Args[2]), cond})
-						}
-						if fn == "p.iptableHandle.DeleteRule" && len(ce.Args) >= 3 {
-							calls = append(calls, call{"DeleteRule", "", g.p.Src(ce.Args[1]), cond})
-						}
-					}
-					return true
-				})
-			}
-			walk(x.Body, c)
-			if x.Else != nil {
-				walk(x.Else, "!("+c+")")
-			}
-		case *ast.ExprStmt:
-			if ce, ok := x.X.(*ast.CallExpr); ok && g.p.Src(ce.Fun) == "writeLine" && len(ce.Args) >= 2 &&
-				g.p.Src(ce.Args[0]) == "filterRules" {
-				t, err2 := g.toksOf(ce.Args[1:])
-				if err2 != nil {
-					err = err2
-					return
-				}
-				lines = append(lines, t)
-			}
-		case *ast.AssignStmt:
-			if len(x.Lhs) == 1 && g.p.Src(x.Lhs[0]) == "args" && len(x.Rhs) == 1 {
-				if els, ok := stringSliceLit(x.Rhs[0]); ok {
-					t, err2 := g.toksOf(els)
-					if err2 != nil {
-						err = err2
-						return
-					}
-					hookArgs = append(hookArgs, t)
+	var hookArgs [][]string
+	iDel, iIP, iBase, iRestore, iHook := -1, -1, -1, -1, -1
+	for i, e := range evs {
+		if as, ok := e.stmt.(*ast.AssignStmt); ok && len(as.Lhs) == 1 && len(as.Rhs) == 1 {
+			if id, ok := as.Lhs[0].(*ast.Ident); ok {
+				if t, ok, err := g.sliceToks(as.Rhs[0], env, nil); err == nil && ok {
+					env[id.Name] = t
+				} else if err != nil && stringSliceLitLike(as.Rhs[0]) {
+					return fmt.Errorf("SyncPodChains: %v", err)
 				}
 			}
 		}
-	}
-	walk(fd.Body, "")
-	if err != nil {
-		return err
+		if t, ok, err := g.writeLineToks(e.call, rulesBuf, env, nil); ok {
+			if err != nil {
+				return fmt.Errorf("SyncPodChains: %v", err)
+			}
+			lines = append(lines, ln{t, e})
+		}
+		if r, ok := e.stmt.(*ast.ReturnStmt); ok {
+			switch {
+			case e.call != nil && txt(e.call) == "p.deletePodChains(pod)" &&
+				sameSet(e.conds(), []string{"filteredEgressPolicy.Len() == 0", "filteredIngressPolicy.Len() == 0"}):
+				iDel = i
+			case txt(r) == "return nil" && iIP < 0 && iDel >= 0 && e.has(`pod.Status.PodIP == ""`):
+				iIP = i
+			}
+		}
+		if e.call == nil {
+			continue
+		}
+		switch fn := txt(e.call.Fun); fn {
+		case "p.ensureBasicChain":
+			iBase = i
+		case "p.iptableHandle.RestoreAll":
+			iRestore = i
+		case "p.iptableHandle.EnsureRule", "p.iptableHandle.DeleteRule":
+			a := e.call.Args
+			k := 3
+			c := call{op: strings.TrimPrefix(fn, "p.iptableHandle.")}
+			if c.op == "EnsureRule" {
+				if len(a) != 4 {
+					return fmt.Errorf("SyncPodChains: unexpected %s", txt(e.call))
+				}
+				c.pos, c.chain = txt(a[0]), txt(a[2])
+			} else {
+				if len(a) != 3 {
+					return fmt.Errorf("SyncPodChains: unexpected %s", txt(e.call))
+				}
+				c.chain, k = txt(a[1]), 2
+			}
+			if e.call.Ellipsis == token.NoPos {
+				return fmt.Errorf("SyncPodChains: unexpected %s", txt(e.call))
+			}
+			t, ok, err := g.sliceToks(a[k], env, nil)
+			if err != nil || !ok {
+				return fmt.Errorf("SyncPodChains: cannot evaluate the hook rule of %s", txt(e.call))
+			}
+			// own condition of the call: what was added after the no-IP guard
+			var own []string
+			for _, x := range e.conds() {
+				if x != `pod.Status.PodIP != ""` && !strings.HasSuffix(x, " == nil") &&
+					x != "filteredEgressPolicy.Len() != 0 || filteredIngressPolicy.Len() != 0" {
+					own = append(own, x)
+				}
+			}
+			c.cond = strings.Join(own, " && ")
+			calls = append(calls, c)
+			if len(hookArgs) == 0 || strings.Join(hookArgs[len(hookArgs)-1], "|") != strings.Join(t, "|") {
+				hookArgs = append(hookArgs, t)
+			}
+			if iHook < 0 {
+				iHook = i
+			}
+		}
 	}
 	if len(lines) != 4 || len(hookArgs) != 2 || len(calls) != 4 {
 		return fmt.Errorf("SyncPodChains: expected 4 rule lines, 2 hook argument lists, 4 hook calls; found %d, %d, %d",
 			len(lines), len(hookArgs), len(calls))
 	}
 	g.emit("-- SyncPodChains: pod chain lines in order (first, per selecting policy, last, COMMIT), hook rules")
-	g.emit("def podChainFirst : List Tok := %s", leanToks(lines[0]))
-	g.emit("def podChainJump : List Tok := %s", leanToks(lines[1]))
-	g.emit("def podChainLast : List Tok := %s", leanToks(lines[2]))
-	g.emit("def podChainCommit : List Tok := %s", leanToks(lines[3]))
+	g.emit("def podChainFirst : List Tok := %s", leanToks(lines[0].toks))
+	g.emit("def podChainJump : List Tok := %s", leanToks(lines[1].toks))
+	g.emit("def podChainLast : List Tok := %s", leanToks(lines[2].toks))
+	g.emit("def podChainCommit : List Tok := %s", leanToks(lines[3].toks))
 	g.emit("def hookIngressArgs : List Tok := %s", leanToks(hookArgs[0]))
 	g.emit("def hookEgressArgs : List Tok := %s", leanToks(hookArgs[1]))
 	var cs []string
@@ -773,27 +1059,28 @@ func (g *gen) podChains() error {
 		cs = append(cs, "("+fg.LeanStr(c.op)+", "+fg.LeanStr(c.pos)+", "+fg.LeanStr(c.chain)+", "+fg.LeanStr(c.cond)+")")
 	}
 	g.emit("def hookCalls : List (String × String × String × String) := [%s]", strings.Join(cs, ",\n  "))
-	body := strings.Join(strings.Fields(g.p.Src(fd.Body)), " ")
-	g.emit("def podChainJumpCond : Bool := %s   -- filteredIngressPolicy.Has(i) || filteredEgressPolicy.Has(i)",
-		fg.LeanBool(strings.Contains(body, "if filteredIngressPolicy.Has(i) || filteredEgressPolicy.Has(i) {")))
-	iDel := strings.Index(body, "return p.deletePodChains(pod)")
-	iIP := strings.Index(body, `if pod.Status.PodIP == "" { return nil }`)
-	iBase := strings.Index(body, "p.ensureBasicChain()")
+	// the jump line: once per policy of p.policies (in order) that selects the pod in either direction; the first and
+	// the last line unconditionally (after the guards), outside the loop
+	jump := lines[1].ev
+	jumpOK := jump.has("range policies") && (jump.has("filteredEgressPolicy.Has(i) || filteredIngressPolicy.Has(i)")) &&
+		!lines[0].ev.has("range policies") && !lines[2].ev.has("range policies") &&
+		sameSet(lines[0].ev.conds(), lines[2].ev.conds()) && len(jump.conds()) == len(lines[0].ev.conds())+1 &&
+		definedBy(evs, "filterMatchingPolicies(pod, policies)", 0) == "filteredIngressPolicy"
+	g.emit("def podChainJumpCond : Bool := %s   -- filteredIngressPolicy.Has(i) || filteredEgressPolicy.Has(i)", fg.LeanBool(jumpOK))
 	g.emit("def syncPodOrderDeleteThenNoIPThenBase : Bool := %s",
-		fg.LeanBool(iDel >= 0 && iIP > iDel && iBase > iIP &&
-			strings.Contains(body, "if filteredIngressPolicy.Len() == 0 && filteredEgressPolicy.Len() == 0 {")))
+		fg.LeanBool(iDel >= 0 && iIP > iDel && iBase > iIP && iRestore > iBase && iHook > iRestore))
 
-	fd, err = g.p.Fn("PolicyManager", "ensureBasicChain")
+	nf, err = g.fn("ensureBasicChain")
 	if err != nil {
 		return err
 	}
 	var base []string
-	ast.Inspect(fd.Body, func(n ast.Node) bool {
-		ce, ok := n.(*ast.CallExpr)
-		if !ok {
-			return true
+	for _, e := range events(g.nz, nf.Decl.Body.List, nil) {
+		if e.call == nil {
+			continue
 		}
-		switch g.p.Src(ce.Fun) {
+		ce := e.call
+		switch txt(ce.Fun) {
 		case "p.iptableHandle.EnsureChain":
 			if len(ce.Args) == 2 {
 				c, _ := g.evalStr(ce.Args[1])
@@ -803,161 +1090,252 @@ func (g *gen) podChains() error {
 			if len(ce.Args) >= 4 {
 				var toks []string
 				for _, a := range ce.Args[3:] {
-					if s, e := g.evalStr(a); e == nil {
-						toks = append(toks, s)
-					} else if c, ok := a.(*ast.CallExpr); ok && len(c.Args) == 1 {
-						s, _ := g.evalStr(c.Args[0])
-						toks = append(toks, s)
+					s, err := g.evalStr(a)
+					if err != nil {
+						return fmt.Errorf("ensureBasicChain: %v", err)
 					}
+					toks = append(toks, s)
 				}
-				chain := strings.TrimPrefix(g.p.Src(ce.Args[2]), "utiliptables.Chain")
-				base = append(base, "("+fg.LeanStr("rule")+", "+fg.LeanStr(strings.TrimPrefix(g.p.Src(ce.Args[0]),
+				chain := strings.TrimPrefix(txt(ce.Args[2]), "utiliptables.Chain")
+				base = append(base, "("+fg.LeanStr("rule")+", "+fg.LeanStr(strings.TrimPrefix(txt(ce.Args[0]),
 					"utiliptables."))+", "+fg.LeanStr(strings.ToUpper(chain))+", "+leanStrs(toks)+")")
 			}
 		}
-		return true
-	})
+	}
 	g.emit("-- ensureBasicChain: calls in order (kind, position, chain, args)")
 	g.emit("def baseCalls : List (String × String × String × List String) := [%s]", strings.Join(base, ",\n  "))
 
-	fd, err = g.p.Fn("", "filterMatchingPolicies")
+	nf, err = g.fn("filterMatchingPolicies")
 	if err != nil {
 		return err
 	}
-	body = strings.Join(strings.Fields(g.p.Src(fd.Body)), " ")
+	evs = events(g.nz, nf.Decl.Body.List, nil)
+	var ing, egr string
+	for _, e := range evs {
+		if r, ok := e.stmt.(*ast.ReturnStmt); ok && len(r.Results) == 2 && len(e.ctx) == 0 {
+			ing, egr = txt(r.Results[0]), txt(r.Results[1])
+		}
+	}
+	sel := definedBy(evs, "v1.LabelSelectorAsSelector(&policy.np.Spec.PodSelector)", 0)
+	errv := definedBy(evs, "v1.LabelSelectorAsSelector(&policy.np.Spec.PodSelector)", 1)
+	match := sel + ".Matches(labels.Set(pod.Labels))"
+	var ci, ce []string
+	ni, ne := 0, 0
+	for _, e := range evs {
+		if e.call == nil || !e.has("range policies") {
+			continue
+		}
+		switch txt(e.call) {
+		case ing + ".Insert(i)":
+			ci = e.conds()
+			ni++
+		case egr + ".Insert(i)":
+			ce = e.conds()
+			ne++
+		}
+	}
+	common := []string{"policy.np.Namespace == pod.Namespace", errv + " == nil", match}
 	g.emit("-- filterMatchingPolicies")
-	g.emit("def filterSameNamespaceOnly : Bool := %s", fg.LeanBool(strings.Contains(body,
-		"if policy.np.Namespace != pod.Namespace { continue }")))
-	g.emit("def filterIngressNeedsIngressRule : Bool := %s", fg.LeanBool(strings.Contains(body,
-		"if policy.ingressRule != nil { if podLabelSelector.Matches(labels.Set(pod.Labels)) { filteredIngressPolicy.Insert(i) } }")))
-	g.emit("def filterEgressNeedsEgressRule : Bool := %s", fg.LeanBool(strings.Contains(body,
-		"if policy.egressRule != nil { if podLabelSelector.Matches(labels.Set(pod.Labels)) { filteredEgressPolicy.Insert(i) } }")))
+	g.emit("def filterSameNamespaceOnly : Bool := %s", fg.LeanBool(ing != "" && ing != egr && ni == 1 && ne == 1 &&
+		contains(ci, common[0]) && contains(ce, common[0])))
+	g.emit("def filterIngressNeedsIngressRule : Bool := %s", fg.LeanBool(ni == 1 && sameSet(ci, append([]string{"policy.ingressRule != nil"}, common...))))
+	g.emit("def filterEgressNeedsEgressRule : Bool := %s", fg.LeanBool(ne == 1 && sameSet(ce, append([]string{"policy.egressRule != nil"}, common...))))
 	return nil
 }
 
+// onlyErrGuards: the statement is reached unless an earlier call failed (`… == nil` are the only conditions).
+func onlyErrGuards(ctx []string) bool {
+	for _, c := range ctx {
+		if !strings.HasSuffix(c, " == nil") {
+			return false
+		}
+	}
+	return true
+}
+
+func contains(xs []string, x string) bool {
+	for _, y := range xs {
+		if x == y {
+			return true
+		}
+	}
+	return false
+}
+
+func stringSliceLitLike(e ast.Expr) bool { _, ok := stringSliceLit(e); return ok }
+
 // ---- order of the sync steps
 
-func (g *gen) methodCalls(pp *fg.Parsed, recv, name string) ([]string, error) {
-	fd, err := pp.Fn(recv, name)
+// methodCalls: the calls `p.m(…)` of the function that are made unconditionally, in order.
+func (g *gen) methodCalls(name string) ([]string, error) {
+	nf, err := g.fn(name)
 	if err != nil {
 		return nil, err
 	}
 	var out []string
-	for _, st := range fd.Body.List {
-		es, ok := st.(*ast.ExprStmt)
-		if !ok {
+	for _, e := range events(g.nz, nf.Decl.Body.List, nil) {
+		if e.call == nil {
 			continue
 		}
-		ce, ok := es.X.(*ast.CallExpr)
-		if !ok {
+		fn := txt(e.call.Fun)
+		if !strings.HasPrefix(fn, "p.") || strings.Count(fn, ".") != 1 {
 			continue
 		}
-		fn := pp.Src(ce.Fun)
-		if strings.HasPrefix(fn, "p.") {
-			out = append(out, strings.TrimPrefix(fn, "p."))
+		if !onlyErrGuards(e.ctx) {
+			return nil, fmt.Errorf("%s: %s is called conditionally (%v)", name, fn, e.ctx)
 		}
+		out = append(out, strings.TrimPrefix(fn, "p."))
 	}
 	return out, nil
 }
 
 func (g *gen) orders() error {
 	g.emit("-- order of the sync steps")
-	run, err := g.methodCalls(g.p, "PolicyManager", "Run")
+	run, err := g.methodCalls("Run")
 	if err != nil {
 		return err
 	}
 	g.emit("def runOrder : List String := %s", leanStrs(run))
 	for _, h := range []string{"AddPolicy", "UpdatePolicy", "DeletePolicy"} {
-		c, err := g.methodCalls(g.ev, "PolicyManager", h)
+		c, err := g.methodCalls(h)
 		if err != nil {
 			return err
 		}
 		g.emit("def order%s : List String := %s", h, leanStrs(c))
 	}
-	fd, err := g.p.Fn("PolicyManager", "writeChains")
+	nf, err := g.fn("writeChains")
 	if err != nil {
 		return err
 	}
-	body := strings.Join(strings.Fields(g.p.Src(fd.Body)), " ")
+	prefixOnly, withX := false, false
+	for _, e := range events(g.nz, nf.Decl.Body.List, nil) {
+		if e.call != nil && txt(e.call) == `writeLine(filterRules, "-X", string(chain))` {
+			withX = true
+			prefixOnly = e.has("range existingChains") &&
+				sameSet(e.conds(), []string{"!activeChains[chain]", "strings.HasPrefix(string(chain), policyChainPrefix)"})
+		}
+	}
 	g.emit("-- writeChains garbage-collects only chains with the policy-chain prefix")
-	g.emit("def writeChainsCollectsPolicyPrefixOnly : Bool := %s", fg.LeanBool(strings.Contains(body,
-		"if !strings.HasPrefix(chainString, policyChainPrefix) { // Ignore chains that aren't ours. continue }") ||
-		strings.Contains(body, "if !strings.HasPrefix(chainString, policyChainPrefix) {")))
-	g.emit("def writeChainsDeletesWithX : Bool := %s", fg.LeanBool(strings.Contains(body,
-		`writeLine(filterRules, "-X", chainString)`)))
-	fd, err = g.p.Fn("PolicyManager", "syncRules")
+	g.emit("def writeChainsCollectsPolicyPrefixOnly : Bool := %s", fg.LeanBool(prefixOnly))
+	g.emit("def writeChainsDeletesWithX : Bool := %s", fg.LeanBool(withX))
+
+	nf, err = g.fn("syncRules")
 	if err != nil {
 		return err
 	}
-	body = strings.Join(strings.Fields(g.p.Src(fd.Body)), " ")
-	iCreate := strings.Index(body, "p.createIPSet(newIPSetMap)")
-	iDefer := strings.Index(body, "defer func() {")
-	iIpt := strings.Index(body, "return p.syncIptables(polices)")
+	iCreate, iDefer, iIpt, destroyOK := -1, -1, -1, false
+	evs := events(g.nz, nf.Decl.Body.List, nil)
+	for i, e := range evs {
+		if e.call == nil {
+			continue
+		}
+		switch {
+		case txt(e.call) == "p.createIPSet(newIPSetMap)" && onlyErrGuards(e.ctx):
+			iCreate = i
+		case func() bool { _, ok := e.stmt.(*ast.DeferStmt); return ok }() && onlyErrGuards(e.ctx):
+			iDefer = i
+		case txt(e.call) == "p.syncIptables(polices)" && sameSet(e.conds(), []string{definedBy(evs, "p.createIPSet(newIPSetMap)", 0) + " == nil",
+			definedBy(evs, "p.ipsetHandle.ListSets()", 1) + " == nil"}):
+			if _, ok := e.stmt.(*ast.ReturnStmt); ok {
+				iIpt = i
+			}
+		case txt(e.call) == "p.ipsetHandle.DestroySet(name)":
+			exist := ""
+			for _, a := range evs {
+				if as, ok := a.stmt.(*ast.AssignStmt); ok && len(as.Lhs) == 2 && len(as.Rhs) == 1 && txt(as.Rhs[0]) == "newIPSetMap[name]" {
+					exist = txt(as.Lhs[1])
+				}
+			}
+			destroyOK = e.has("defer") && e.has("range ipsets") && exist != "" &&
+				contains(e.conds(), "strings.HasPrefix(name, NamePrefix)") && contains(e.conds(), "!"+exist)
+		}
+	}
 	// syncNetworkPolicyRules: syncRules is called unconditionally (also by a process that has seen no NetworkPolicy: that
 	// is what removes the GLX-PLCY chains and GLX sets a previous process left behind)
-	fd, err = g.p.Fn("PolicyManager", "syncNetworkPolicyRules")
+	nf, err = g.fn("syncNetworkPolicyRules")
 	if err != nil {
 		return err
 	}
-	uncond := true
-	sawCall := false
-	for _, st := range fd.Body.List {
-		src := strings.Join(strings.Fields(g.p.Src(st)), " ")
-		if strings.Contains(src, "p.syncRules(") {
-			is, ok := st.(*ast.IfStmt)
-			if !ok || is.Init == nil || !strings.HasPrefix(strings.Join(strings.Fields(g.p.Src(is.Init)), " "), "err := p.syncRules(policies)") {
-				uncond = false
-			}
+	uncond, sawCall := true, false
+	for _, e := range events(g.nz, nf.Decl.Body.List, nil) {
+		if e.call != nil && txt(e.call.Fun) == "p.syncRules" {
 			sawCall = true
+			uncond = onlyErrGuards(e.ctx)
 			break
 		}
-		switch st.(type) {
-		case *ast.IfStmt, *ast.ReturnStmt, *ast.ForStmt, *ast.RangeStmt, *ast.SwitchStmt:
-			uncond = false // something decides or returns before the call
+		if _, ok := e.stmt.(*ast.ReturnStmt); ok {
+			uncond = false // something returns before the call
 		}
 	}
 	if !sawCall {
-		return fmt.Errorf("syncNetworkPolicyRules: no call of p.syncRules found at statement level")
+		return fmt.Errorf("syncNetworkPolicyRules: no call of p.syncRules found")
 	}
 	g.emit("def syncNetworkPolicyRulesUnconditional : Bool := %s", fg.LeanBool(uncond))
+
 	// createIPSet: does the stale-entry clean-up spare an old entry whose KEY is among the new entries?
-	fd, err = g.p.Fn("PolicyManager", "createIPSet")
+	nf, err = g.fn("createIPSet")
 	if err != nil {
 		return err
 	}
-	cbody := strings.Join(strings.Fields(g.p.Src(fd.Body)), " ")
-	if !strings.Contains(cbody, "if oldEntriesSet.Has(newEntryStr) { continue }") ||
-		!strings.Contains(cbody, "p.ipsetHandle.AddEntryWithOptions(&entry, &set.IPSet, true)") ||
-		!strings.Contains(cbody, "if !newEntries.Has(old) {") ||
-		!strings.Contains(cbody, "p.ipsetHandle.DelEntryWithOptions(name, parts[0], parts[1:]...)") {
+	evs = events(g.nz, nf.Decl.Body.List, nil)
+	var newEntries, newKeys, oldSet, full string
+	for _, e := range evs {
+		if e.call == nil {
+			continue
+		}
+		if as, ok := e.stmt.(*ast.AssignStmt); ok && len(as.Lhs) == 1 {
+			switch txt(e.call) {
+			case "sets.NewString(oldEntries...)":
+				oldSet = txt(as.Lhs[0])
+			case `strings.Join(append([]string{entry.String()}, entry.Options...), " ")`:
+				full = txt(as.Lhs[0])
+			}
+		}
+		if strings.HasSuffix(txt(e.call.Fun), ".Insert") && len(e.call.Args) == 1 && e.has("range set.entries") && len(e.conds()) == 2 {
+			recv := strings.TrimSuffix(txt(e.call.Fun), ".Insert")
+			switch txt(e.call.Args[0]) {
+			case full:
+				newEntries = recv
+			case "entry.String()":
+				newKeys = recv
+			}
+		}
+	}
+	addOK, delOK, keeps := false, false, false
+	key := `strings.Split(old, " ")[0]`
+	for _, e := range evs {
+		if e.call == nil {
+			continue
+		}
+		var own []string
+		for _, c := range e.conds() {
+			if !strings.HasSuffix(c, " == nil") {
+				own = append(own, c)
+			}
+		}
+		switch txt(e.call) {
+		case "p.ipsetHandle.AddEntryWithOptions(&entry, &set.IPSet, true)":
+			addOK = e.has("range set.entries") && oldSet != "" && full != "" && sameSet(own, []string{"!" + oldSet + ".Has(" + full + ")"})
+		case "p.ipsetHandle.DelEntryWithOptions(name, " + key + `, strings.Split(old, " ")[1:]...)`:
+			if e.has("range oldEntries") && newEntries != "" && contains(own, "!"+newEntries+".Has(old)") {
+				delOK = len(own) == 1 || (len(own) == 2 && newKeys != "" && contains(own, "!"+newKeys+".Has("+key+")"))
+				keeps = len(own) == 2 && delOK
+			}
+		}
+	}
+	if !addOK || !delOK || newEntries == "" {
 		return fmt.Errorf("createIPSet: the diff-based entry update no longer has the shape the model mirrors")
 	}
-	keeps := strings.Contains(cbody, "newEntryKeys.Insert(entry.String())") &&
-		regexpKeepGuard(cbody)
 	g.emit("-- createIPSet: entries are compared as strings incl. options, added with -exist, stale ones deleted by key;")
-	g.emit("-- the clean-up skips an old entry whose key (parts[0]) is among the keys of the new entries")
+	g.emit("-- the clean-up skips an old entry whose key (first word) is among the keys of the new entries")
 	g.emit("def createIPSetKeepsRekeyedEntries : Bool := %s", fg.LeanBool(keeps))
 	g.emit("-- syncRules: create/refresh sets, then iptables, stale GLX sets destroyed afterwards (defer)")
-	g.emit("def syncRulesOrder : Bool := %s", fg.LeanBool(iCreate >= 0 && iDefer > iCreate && iIpt > iDefer &&
-		strings.Contains(body, "if !strings.HasPrefix(name, NamePrefix) { continue }")))
+	g.emit("def syncRulesOrder : Bool := %s", fg.LeanBool(iCreate >= 0 && iDefer > iCreate && iIpt > iDefer && destroyOK))
 	return nil
 }
 
-// regexpKeepGuard: inside `if !newEntries.Has(old) { … }` and before the delete there is
-// `if newEntryKeys.Has(parts[0]) { … continue }`.
-func regexpKeepGuard(body string) bool {
-	i := strings.Index(body, "if !newEntries.Has(old) {")
-	j := strings.Index(body, "p.ipsetHandle.DelEntryWithOptions(name, parts[0], parts[1:]...)")
-	if i < 0 || j < i {
-		return false
-	}
-	seg := body[i:j]
-	k := strings.Index(seg, "if newEntryKeys.Has(parts[0]) {")
-	return k >= 0 && strings.Contains(seg[k:], "continue }")
-}
-
 func generate(repo string) (map[string]string, error) {
-	g := &gen{}
+	g := &gen{nfs: map[string]*NF{}}
 	var err error
 	if g.p, err = fg.ParseFile(repo, srcPolicy); err != nil {
 		return nil, err
@@ -965,6 +1343,7 @@ func generate(repo string) (map[string]string, error) {
 	if g.ev, err = fg.ParseFile(repo, srcEvent); err != nil {
 		return nil, err
 	}
+	g.nz = newPolicyNormaliser(g.p, g.ev)
 	if err = g.loadVars(); err != nil {
 		return nil, err
 	}
@@ -975,9 +1354,8 @@ func generate(repo string) (map[string]string, error) {
 	g.emit("/-- one word of a rule template -/")
 	g.emit("inductive Tok where")
 	g.emit("  | lit (s : String)                  -- literal word")
-	g.emit("  | var (src : String)                -- value of this Go expression")
+	g.emit("  | var (src : String)                -- value of this Go expression (canonical form, see tools/factgen/cmd/policy/norm.go)")
 	g.emit("  | join (src : String) (sep : String) -- strings.Join(src, sep)")
-	g.emit("  | splice (src : String)             -- the words of this []string")
 	g.emit("  deriving DecidableEq, Repr")
 	g.emit("")
 	g.emit("def namePrefix : String := %s", fg.LeanStr(g.vars["NamePrefix"]))
